@@ -115,7 +115,7 @@ class T(ast.NodeTransformer):
 
     def visit_Call(self, n):
         if isinstance(n.func, ast.Name) and n.func.id == 'super' and not n.args:
-            return ast.Call(ast.Name('super', ast.Load()), [ast.Name('__sx_cls', ast.Load()), ast.Name(self.firstarg, ast.Load())], [])
+            return ast.Call(_sx('super_'), [ast.Name('__sx_cls', ast.Load()), ast.Name(self.firstarg, ast.Load())], [])
         if isinstance(n.func, ast.Name) and n.func.id in NO_REWRITE_CALLS:
             self.generic_visit(n)
             return n
